@@ -41,7 +41,7 @@ func (c *Codec) NewWriter(w io.Writer) io.WriteCloser {
 	} else {
 		z = lz4.NewWriter(w)
 	}
-	return &writer{Writer: z}
+	return &writer{z: z}
 }
 
 type reader struct{ *lz4.Reader }
@@ -55,11 +55,21 @@ func (r *reader) Close() (err error) {
 	return
 }
 
-type writer struct{ *lz4.Writer }
+// writer does not embed *lz4.Writer: its ReadFrom method is only valid on a
+// writer that has not been written to yet, and would otherwise be picked by
+// io.Copy when a kafka message is streamed into the compressed record set.
+type writer struct{ z *lz4.Writer }
+
+func (w *writer) Write(b []byte) (int, error) {
+	if w.z == nil {
+		return 0, io.ErrClosedPipe
+	}
+	return w.z.Write(b)
+}
 
 func (w *writer) Close() (err error) {
-	if z := w.Writer; z != nil {
-		w.Writer = nil
+	if z := w.z; z != nil {
+		w.z = nil
 		err = z.Close()
 		z.Reset(nil)
 		writerPool.Put(z)
